@@ -10,6 +10,19 @@ TRUST = ("TLC explores the stated finite scopes exhaustively; the Python harness
          "enumerated and seeded cases, not for all inputs.")
 
 P = {
+    "C17": dict(
+        spec="Capacity, MC_Capacity",
+        text="Floating-point power iteration is not a TLA+ object; the specification is the exact integer model behind it (walk counts, "
+             "rational estimates, regularity, single primitive cyclic component, Birkhoff gap certificate with limb products, "
+             "Collatz-Wielandt interval with monotonicity as action properties), run by TLC as a state machine on 4096 (65 536) order-1 "
+             "arc subsets and on seeded graphs of orders 2..3; approximate_capacity is judged against the facts TLC derives: <= 2 bits "
+             "in every mode, 0.0 on arc-less graphs, exactly log2 d on d-regular graphs, and inside the certified interval +/- 1e-4 for "
+             "random starts (repeats 2, 3, 5) and for the deterministic mode on every graph TLC certifies to be in the property's class.",
+        tech="TLC model checking of an exact integer walk-count model with spectral certificates + comparison of the real function with TLC-derived bounds",
+        note="Accuracy is decided only against the certified Collatz-Wielandt interval after 13 exact steps (sound at any width, sharp when "
+             "tight) and only for graphs of order <= 3 that the Birkhoff certificate places in the property's class; IEEE arithmetic "
+             "itself is outside TLA+. " + TRUST,
+        ref="5/C17"),
     "C20": dict(
         spec="Library, Trace_Library",
         text="Library.tla is the API grain: a workspace of shared objects, one action per public function, the Frame action property "
